@@ -20,6 +20,12 @@ CHECKS = {
         note="Reference = tokenize.generate_tokens of the running CPython 3.12; reference tokens whose coordinates contradict their own text (a CPython bug after non-ASCII text) are excluded and counted.",
         ref="DESIGN.md §4 C09",
     ),
+    "C10": dict(
+        technique="differential property-based testing against CPython's ast.parse and tokenize on f-string literals drawn from a feature grammar (prefix x quote x text kinds x field forms x specs x nesting x adjacency) plus all corpus f-strings",
+        text="Exploration: for every generated statement CPython accepts, the tree (values and spans) must equal ast.parse's and the token stream (incl. FSTRING_START/MIDDLE/END) must equal tokenize's. Feature histogram in the evidence. Held except listed finding D7 (non-ASCII columns).",
+        note="Reference artefacts are normalised and documented: empty Constant('') CPython 3.12.1 appends to specs ending in a nested field, zero-width/split FSTRING_MIDDLE tokens, token comparison skipped for doubled braces; '#' inside a '=' debug field and '!=' before '=' are excluded because the reference itself is wrong there.",
+        ref="DESIGN.md §4 C10",
+    ),
     "C11": dict(
         technique="property-based testing of the error path: mutated/truncated programs and ~170 targeted syntax errors wrapped in generated layouts, checked against a validity predicate over (exception, source text)",
         text="Exploration: every SyntaxError/IndentationError raised for a generated rejected input must carry msg, filename, 1<=lineno<=nlines+1, 1<=offset<=len(line)+1, an end position >= start, and a text starting with the reported source line. Histogram by raising site shows which raise_* helpers, tokenizer and literal-evaluation paths were reached. Held on everything generated.",
@@ -43,6 +49,12 @@ CHECKS = {
         text="Exploration: every generated input is pushed through generate_tokens, parse_string (exec and eval) and, for a fraction, parse_file, under a watchdog; the only allowed outcomes are a Module/Expression, SyntaxError or TokenError. Held on everything generated under the harness recursion limit; the default-limit behaviour is listed finding D22.",
         note="Soft 10 s watchdog, hang only if a fresh interpreter also exceeds 50 s. RecursionError counts only below 300 tokens under the raised limit. libFuzzer campaigns are only approximately reproducible; the saved input is the reproducible unit.",
         ref="DESIGN.md §4 C03",
+    ),
+    "C05": dict(
+        technique="metamorphic/differential property-based testing: a generated xonsh construct is inserted at a Load-position hole of a generated or corpus program (hole chosen on CPython's tree) and the result is compared with ast.parse of the same program with the generator-computed translation written out; span of the construct's node checked separately",
+        text="Exploration: (context, hole, construct) triples incl. nested constructs, f-string fields and Store targets; tree equality without positions plus exact span of the construct's node. Histogram of construct kind x parent field in the evidence. Held except listed finding D43 (constructs as attribute/subscript bases inside for/with/comprehension targets).",
+        note="The translation table is the documented one (tests/data/exprs, stmts, subheader builders), computed recursively by the generator, never by the parser. Pairs where CPython rejects ctx[translation] or re-reads it as another node class are outside the domain and counted.",
+        ref="DESIGN.md §4 C05",
     ),
     "C08": dict(
         technique="property-based testing: generated and mutated texts (Hypothesis-driven grammar, corpus, mutation, soup) against a pure tiling oracle over (text, token list)",
